@@ -19,8 +19,25 @@ from . import c03, c16
 OWN = "C20"
 
 
+def model_check_kinds(chk):
+    """the class of what the callback raises: with the cube's task wrapper (the code) every class propagates; the
+    bare CPython pool (the environment, and the harness's stand-in of it) hangs on a non-Exception and swallows a
+    StopIteration - both reachable in the model, which is what defect F22 was"""
+    for cfg in ("MC_CubePool_guarded_kinds.cfg", "MC_CubePool_raw.cfg"):
+        res = core.run_tlc("MC_CubePool.tla", cfg, timeout=3000, deadlock=False)
+        chk.add_tlc("L1 %s" % cfg, res)
+        if res.rc != 0:
+            chk.violation("L1:%s:%s" % (cfg, ",".join(res.violated + res.action_violated)), res.out[-1500:], {"leg": "L1", "cfg": cfg})
+    for cfg, inv in (("MC_CubePool_raw_hang.cfg", "RawNeverHangs"), ("MC_CubePool_raw_silent.cfg", "RawNeverSilent")):
+        res = core.run_tlc("MC_CubePool.tla", cfg, timeout=3000, deadlock=False)
+        chk.add_tlc("L1 %s (witness: TLC must find the state)" % cfg, res)
+        if res.violated != [inv]:
+            raise core.MachineryFailure("the raw-pool model no longer reaches the state %s rules out: %s" % (inv, res.errors[:3]))
+
+
 def run(chk, tier):
     c16.model_check(chk, tier)
+    model_check_kinds(chk)
     env = c16.new_env()
     rnd = random.Random(core.SEED + 5)
     n_cubes = 36 if tier == "quick" else 300
